@@ -27,6 +27,10 @@ fn main() {
         std::process::exit(2);
     }
     install_quiet_panic_hook();
+    if args[1] == "srvtest" {
+        srvtest();
+        return;
+    }
     if args[1] == "probe-recover" && args.len() >= 4 {
         std::process::exit(props::c13::probe_main(&args[2], &args[3]));
     }
@@ -76,4 +80,37 @@ fn main() {
     (entry.main)(&ctx);
     let level = entry.level;
     std::process::exit(finish(&ctx, level));
+}
+
+#[allow(dead_code)]
+pub fn srvtest() {
+    use common::srv::*;
+    use kyrodb_engine::proto as pb;
+    let root = std::path::PathBuf::from(format!("/dev/shm/kvh.srvtest.{}", std::process::id()));
+    let t0 = std::time::Instant::now();
+    let mut s = Server::new(SrvCfg::default_for(4, "euclidean", true, 1000), &root, 0);
+    s.start().unwrap();
+    eprintln!("start: {:?}", t0.elapsed());
+    let rt = tokio::runtime::Builder::new_current_thread().enable_all().build().unwrap();
+    let key = key_for("alpha", 0xa1);
+    for i in 0..5 {
+        let t1 = std::time::Instant::now();
+        let r = rt.block_on(async {
+            let mut c = s.client().await.unwrap();
+            let t2 = std::time::Instant::now();
+            let r = c.insert(with_key(pb::InsertRequest { doc_id: 1 + i, embedding: vec![1.0, 0.0, 0.0, 0.0], metadata: Default::default(), namespace: String::new() }, Some(&key))).await;
+            (t2.elapsed(), r.is_ok())
+        });
+        eprintln!("rpc {}: total {:?} call {:?} ok={}", i, t1.elapsed(), r.0, r.1);
+    }
+    let t3 = std::time::Instant::now();
+    eprintln!("usage: {:?} in {:?}", s.http_get("/usage", Some(&key)).map(|x| x.0), t3.elapsed());
+    let t4 = std::time::Instant::now();
+    s.stop_term();
+    eprintln!("stop_term: {:?}", t4.elapsed());
+    let t5 = std::time::Instant::now();
+    s.start().unwrap();
+    eprintln!("restart: {:?}", t5.elapsed());
+    s.stop_kill();
+    let _ = std::fs::remove_dir_all(&root);
 }
